@@ -11,13 +11,13 @@ pub static DEF: CheckDef = CheckDef {
     id: "C16",
     run,
     replay,
-    rule: "(a) every one of the 256 source pages: start a transfer, let it complete in one batch and in 3 split patterns, compare OAM and all other memory with the per-machine-cycle reference (models::dma driving a twin machine's bus); plus, for every page, a source byte ahead of the copy position is changed after k machine cycles for k in {0, 1, 79, 158, 159, 160, 161} (it must land iff it was not yet copied). (b) proptest histories of up to 16 operations over {start(page), advance(m machine cycles, cut points), write(addr, value)} on an MBC1+RAM machine, with writes biased into the active source page around the copy position, into OAM, onto bank registers (source in switchable ROM / cartridge RAM) and onto 0xFF46 (restart); after every operation OAM and the complete machine state are compared with the reference, and every advance is also delivered in pieces to a second real instance that must end in the same state. Non-trivial = history with a source write during a transfer, a restart, or an advance split inside a transfer; distinct by hash of the history.",
+    rule: "(a) every one of the 256 source pages: start a transfer, let it complete in one batch and in 3 split patterns, compare OAM and all other memory with the per-machine-cycle reference (models::dma driving a twin machine's bus); plus, for every page, a source byte ahead of the copy position is changed after k machine cycles for k in {0, 1, 79, 158, 159, 160, 161} (it must land iff it was not yet copied). (b) proptest histories of up to 16 operations over {start(page), advance(m machine cycles, cut points), write(addr, value)} on an MBC1+RAM machine (also with the LCD switched on and positioned anywhere in a frame first), with writes biased into the active source page around the copy position, into OAM, onto bank registers (source in switchable ROM / cartridge RAM) and onto 0xFF46 (restart); after every operation OAM and the complete machine state are compared with the reference, and every advance is also delivered in pieces to a second real instance that must end in the same state. Non-trivial = history with a source write during a transfer, a restart, or an advance split inside a transfer; distinct by hash of the history.",
     assumptions: &[
         "models::dma (byte k is copied in machine cycle k+1 after the write to 0xFF46, source read at that time)",
         "source bytes that are live device registers (page 0xFF, offsets 0x00-0x7F) are not compared (their value depends on when within the batch they are read)",
-        "memory behind the bus (echo pages, unusable area, bank mapping) is whatever the repository's bus returns, on both sides (C10)",
+        "memory behind the bus (echo pages, unusable area, bank mapping) is whatever the repository's bus returns, on both sides (C10); the reference stores the transferred bytes into OAM directly, not through the emulator's write path",
     ],
-    required_classes: &["all-pages", "source-write-ahead-lands", "source-write-behind-ignored", "change-at-159", "change-at-160", "restart", "split-inside-transfer", "source-in-banked-rom", "generated-history"],
+    required_classes: &["all-pages", "source-write-ahead-lands", "source-write-behind-ignored", "change-at-159", "change-at-160", "restart", "split-inside-transfer", "lcd-on-mid-frame", "source-in-banked-rom", "generated-history"],
     exhaustive: false,
 };
 
@@ -29,6 +29,8 @@ enum Op {
     Write(u16, u8),
     /// write relative to the active transfer: source page, offset = progress + delta
     WriteRel(i16, u8),
+    /// program LCDC and let time pass (no transfer running): puts the LCD at an arbitrary line / mode
+    Pos(u8, u16),
 }
 
 fn case_json(ops: &[Op]) -> Value {
@@ -43,7 +45,13 @@ impl<'a> models::sm83::Bus for Twin<'a> {
         self.m.read(a)
     }
     fn write(&mut self, a: u16, v: u8) {
-        self.m.write(a, v)
+        // the transfer's destination is OAM storage itself: the reference does not go
+        // through the emulator's write path (which the CPU shares) for it
+        if (0xfe00..0xfea0).contains(&a) {
+            self.m.core.memory.oam_ram[(a & 0xff) as usize] = v;
+        } else {
+            self.m.write(a, v)
+        }
     }
 }
 
@@ -84,6 +92,7 @@ struct Stats {
     restart: bool,
     split_inside: bool,
     banked: bool,
+    positioned: bool,
 }
 
 fn cut_sizes(n: u32, cuts: &[u16]) -> Vec<u32> {
@@ -175,6 +184,15 @@ fn exec(w: &mut World, ops: &[Op], st: &mut Stats) -> CaseResult {
                     }
                 }
             }
+            Op::Pos(lcdc, skip) => {
+                if dma.active.is_none() {
+                    st.positioned = true;
+                    for m in [&mut w.a, &mut w.s, &mut w.t] {
+                        m.write(0xff40, *lcdc);
+                        m.run_clocks(4 * (*skip as usize + 1));
+                    }
+                }
+            }
             Op::WriteRel(..) => unreachable!(),
         }
         // compare: OAM (asserted bytes), then everything else
@@ -229,6 +247,9 @@ fn run_case(w: &mut World, ops: &[Op], rec: &mut Rec, counting: bool) -> CaseRes
         if st.banked {
             rec.class("source-in-banked-rom", 1);
         }
+        if st.positioned {
+            rec.class("lcd-on-mid-frame", 1);
+        }
         if nt {
             rec.nontrivial(fnv(format!("{:?}", ops).as_bytes()));
         }
@@ -262,6 +283,7 @@ fn op_strategy() -> impl Strategy<Value = Op> {
         6 => (m, cuts).prop_map(|(m, c)| Op::Adv(m, c)),
         4 => (-6i16..40, any::<u8>()).prop_map(|(d, v)| Op::WriteRel(d, v)),
         3 => (addr, any::<u8>()).prop_map(|(a, v)| Op::Write(a, if a < 0x2000 { (v & 0xf0) | 0x0a } else { v })),
+        2 => (prop_oneof![Just(0x91u8), Just(0x83u8), any::<u8>()], 0u16..18000).prop_map(|(l, n)| Op::Pos(l, n)),
     ]
 }
 
@@ -296,6 +318,9 @@ fn run(rec: &mut Rec) {
                 rec.class("change-at-160", 1);
             }
         }
+        // the same with the LCD on and somewhere in the visible part of the frame
+        let extra: Vec<Vec<Op>> = cases.iter().take(3).map(|c| { let mut v = vec![Op::Pos(0x93, 1140 + (page as u16) * 57)]; v.extend(c.iter().cloned()); v }).collect();
+        cases.extend(extra);
         for ops in cases {
             rec.current(&case_json(&ops).to_string());
             rec.class("all-pages", 1);
